@@ -170,6 +170,7 @@ func genC04(g *gen) {
 	emit("gen_ingress_seals_with_key", []row{
 		{"RelayUDPDatagram", c04SealsWithKey(findFunc(udpFile, "Agent", "RelayUDPDatagram"))},
 		{"RelayICMPEcho", c04SealsWithKey(findFunc(icmpFile, "Agent", "RelayICMPEcho"))},
+		{"runWSICMPSender", c04SealsWithKey(findFunc(icmpFile, "Agent", "runWSICMPSender"))},
 	})
 
 	emit("gen_stream_senders_need_key", []row{
